@@ -66,6 +66,22 @@ func c18() {
 		}
 		elf[a] = b
 	}
+	// a dynamically linked Go binary (cgo): the profiler warns about it; the profile is what it is
+	{
+		dir := filepath.Join(vlib.BinDir(), "c18dyn")
+		os.MkdirAll(dir, 0o755)
+		os.WriteFile(filepath.Join(dir, "main.go"), []byte("package main\n\n// #include <stdlib.h>\nimport \"C\"\n\nfunc main() { C.abs(1) }\n"), 0o644)
+		os.WriteFile(filepath.Join(dir, "go.mod"), []byte("module c18dyn\n\ngo 1.18\n"), 0o644)
+		cmd := exec.Command("go", "build", "-o", filepath.Join(dir, "dyn"), ".")
+		cmd.Dir = dir
+		cmd.Env = append(os.Environ(), "CGO_ENABLED=1", "GOFLAGS=-mod=mod")
+		if out, err := cmd.CombinedOutput(); err == nil {
+			elf["dyn"] = filepath.Join(dir, "dyn")
+		} else {
+			run.Count("dynamically_linked_input_not_built", 1)
+			run.Set("dynamically_linked_input_build_output", tail(string(out), 200))
+		}
+	}
 	type archCtx struct {
 		goarch string // "" amd64, "386"
 		name   string
@@ -205,7 +221,12 @@ func c18() {
 		os.WriteFile(listing, []byte(listingForNumbers(r, found, cx.goarch == "386", cx.table)), 0o644)
 		// unusual but legal file names of the binary (spaces, non-ASCII, leading dash, shell characters)
 		target := filepath.Join(th.Dir, []string{"target", "my target", "ziél-バイナリ", "-dash", "a;b&c$(x)", "t\tab", "UPPER.exe", "x.y.z-0123456789"}[i%8])
-		copyFile(target, elf[cx.goarch])
+		input := elf[cx.goarch]
+		if d, ok := elf["dyn"]; ok && cx.goarch == "" && i%10 == 6 {
+			input = d
+			run.Count("runs_on_a_dynamically_linked_binary", 1)
+		}
+		copyFile(target, input)
 		// flags
 		format := []string{"config", "config", "code"}[i%3]
 		argv := []string{prof, "-format", format}
